@@ -1,14 +1,222 @@
-(** C17 - streaming, non-streaming and OpenAI-compatible responses carry the same result.  Theorems only. *)
+(** C17 - streaming, non-streaming and OpenAI-compatible responses carry the same result.  Theorems only.
+
+    Reading guide.  A runner output [o : rout] is what the handler's callback receives: the content chunks and how
+    Completion ended (final response | error | silent return).  [text_of o] is the text the model produced; two
+    outputs with the same text and the same ending are two splits of one model output (the failure point is the
+    position of the ending).  [stream_result] concatenates the NDJSON records of a stream up to its terminal
+    record; [http_result] reads the single non-streamed body; [sse_result] / [v1_result] do the same for the /v1
+    endpoints and [openai_of] is the OpenAI rendering of a native result (finish_reason tool_calls when calls
+    are present, usage = prompt/eval counts).  The model describes the repaired writers and client
+    (fixes/C17-openai-stream-error.patch, fixes/C17-client-scanner-err.patch). *)
 From Coq Require Import List NArith ZArith Bool Arith.
 From V Require Import Common.Bytes Stream.Model Stream.Proofs.
 Import ListNotations.
 
-(** /api/generate: for every request shape (raw or not, tokenizer failing or not), every two runner outputs
-    that carry the same text and end the same way (any two splits of one model output, a failure at any
-    point, a silent end), the concatenation of the streamed records and the single non-streamed response are
-    the same result (text, done reason, counts, context - or the same error). *)
+(** ** /api/generate *)
+
+(** for every request shape (raw or not, final tokenization failing or not) and every two splits of the same
+    output with the same ending (final response, error at any point, silent return): the streamed records
+    concatenate to the non-streamed response: same text, done reason, counts, context - or the same error *)
 Theorem C17_generate_equiv : forall cfg o1 o2,
   text_of o1 = text_of o2 -> ending o1 = ending o2 ->
   stream_result (gen_stream cfg o1) = http_result (gen_nonstream cfg o2).
 Proof. intros cfg o1 o2 Ht He. rewrite gen_stream_result, gen_nonstream_result, Ht, He. reflexivity. Qed.
 Print Assumptions C17_generate_equiv.
+
+(** ... and the streamed result does not depend on the split *)
+Theorem C17_generate_split_independent : forall cfg o1 o2,
+  text_of o1 = text_of o2 -> ending o1 = ending o2 ->
+  stream_result (gen_stream cfg o1) = stream_result (gen_stream cfg o2).
+Proof. intros cfg o1 o2 Ht He. rewrite !gen_stream_result, Ht, He. reflexivity. Qed.
+Print Assumptions C17_generate_split_independent.
+
+(** ** /api/chat without tools (any parser, stream flag either way) *)
+Theorem C17_chat_equiv_no_tools : forall P s o1 o2,
+  text_of o1 = text_of o2 -> ending o1 = ending o2 ->
+  stream_result (chat_stream P (mkCc s false) o1) = http_result (chat_nonstream P false o2).
+Proof. exact chat_equiv_no_tools. Qed.
+Print Assumptions C17_chat_equiv_no_tools.
+
+(** ** exactly one final message or one error, as the last record of the stream *)
+
+(** full statement: every native stream, however the runner ends *)
+Definition C17_exactly_one_terminal_full : Prop :=
+  forall cfg o, one_terminal_last is_terminal (gen_stream cfg o).
+
+(** false when Completion returns without a final response and without an error (known finding
+    C17-silent-runner-end): the stream is just the content records *)
+Theorem C17_exactly_one_terminal_refuted : ~ C17_exactly_one_terminal_full.
+Proof.
+  intros H. specialize (H (mkG false false [104%N]) (mkOut [[72%N]; [105%N]] FSilent)).
+  apply one_terminal_last_count in H. destruct H as [H _]. vm_compute in H. discriminate.
+Qed.
+Print Assumptions C17_exactly_one_terminal_refuted.
+
+(** for every runner that ends with a final response or an error - after any number of chunks, with any
+    request shape, any tool-call parser, tokenization failing or not - the NDJSON stream of /api/generate and
+    of /api/chat consists of non-terminal records followed by exactly one terminal record *)
+Theorem C17_exactly_one_terminal_partial : forall o, ending o <> FSilent ->
+  (forall cfg, one_terminal_last is_terminal (gen_stream cfg o)) /\
+  (forall P cfg, one_terminal_last is_terminal (chat_stream P cfg o)).
+Proof.
+  intros o Hs. split.
+  - intros cfg. apply gen_items_terminal; exact Hs.
+  - intros P cfg. apply chat_items_terminal; exact Hs.
+Qed.
+Print Assumptions C17_exactly_one_terminal_partial.
+
+Example C17_exactly_one_terminal_nonvacuous :
+  ending (mkOut [[72%N]; [105%N]] (FErr [98%N])) <> FSilent /\
+  count_terminal (gen_stream (mkG false false [104%N]) (mkOut [[72%N]; [105%N]] (FErr [98%N]))) = 1 /\
+  length (gen_stream (mkG false false [104%N]) (mkOut [[72%N]; [105%N]] (FErr [98%N]))) = 3.
+Proof. split; [discriminate|]. vm_compute. split; reflexivity. Qed.
+
+(** the same through the OpenAI writers: one [DONE] marker or one error event, last *)
+Theorem C17_openai_exactly_one_terminal : forall o, ending o <> FSilent ->
+  (forall u cfg, one_terminal_last sse_terminal (v1comp_stream u (gen_stream cfg o))) /\
+  (forall u P cfg, one_terminal_last sse_terminal (v1chat_stream u false (chat_stream P cfg o))).
+Proof.
+  intros o Hs. split.
+  - intros u cfg. apply v1comp_stream_terminal, gen_items_terminal; exact Hs.
+  - intros u P cfg. apply v1chat_stream_terminal, chat_items_terminal; exact Hs.
+Qed.
+Print Assumptions C17_openai_exactly_one_terminal.
+
+(** api.Client.stream (with `return scanner.Err()`): over a response whose lines end with exactly one terminal
+    line - of any lengths, any status, possibly with undecodable lines before it - the caller gets either nil
+    and exactly one final message (the last delivered), or an error and no final message *)
+Theorem C17_client_exactly_one_terminal : forall max status ls,
+  one_terminal_last line_terminal ls ->
+  let '(d, r) := client_stream true max status ls in
+  (r = COk /\ one_terminal_last line_terminal d) \/
+  (exists e, r = CFail e /\ forallb (fun x => negb (line_terminal x)) d = true).
+Proof. exact client_stream_terminal. Qed.
+Print Assumptions C17_client_exactly_one_terminal.
+
+(** the unrepaired client (no scanner.Err() check) on a final line of 512000 bytes: nil and no final message *)
+Theorem C17_client_unchecked_refuted :
+  ~ (forall max status ls, one_terminal_last line_terminal ls ->
+       let '(d, r) := client_stream false max status ls in
+       (r = COk /\ one_terminal_last line_terminal d) \/ (exists e, r = CFail e)).
+Proof.
+  intros H. specialize (H 512000%N 200%Z [LMsg 512000 true] (one_terminal_last_single _ _ eq_refl)).
+  vm_compute in H. destruct H as [[_ (pre & t & E & _)]|[e E]]; [destruct pre; discriminate|discriminate].
+Qed.
+Print Assumptions C17_client_unchecked_refuted.
+
+(** ** /api/chat with tools *)
+
+(** full statement: for every tool-call parser *)
+Definition C17_chat_equiv_tools_full : Prop :=
+  forall (P : str -> option (list (str * str))) o1 o2,
+    text_of o1 = text_of o2 -> ending o1 = ending o2 ->
+    ending o1 <> FSilent -> fin_content (ending o1) = [] ->
+    stream_result (chat_stream P (mkCc true true) o1) = http_result (chat_nonstream P true o2).
+
+(** false (known finding C17-tools-split-dependent): with a parser that, like parseObjects, reads calls left to
+    right and ignores an unfinished one at the end, the chunks "<a><b" "c>" stream the call a only (the buffer
+    holding "<b" is cleared when a is reported) while the non-streamed response has a and bc *)
+Theorem C17_chat_equiv_tools_refuted : ~ C17_chat_equiv_tools_full.
+Proof.
+  intros H.
+  specialize (H P0 (mkOut [[60;97;62;60;98]%N; [99;62]%N] (FDone [] RStop zeroc))
+                   (mkOut [[60;97;62;60;98]%N; [99;62]%N] (FDone [] RStop zeroc)) eq_refl eq_refl).
+  assert (E : FDone [] RStop zeroc <> FSilent) by discriminate.
+  specialize (H E eq_refl). vm_compute in H. discriminate.
+Qed.
+Print Assumptions C17_chat_equiv_tools_refuted.
+
+(** ... and the streamed tool calls depend on the split *)
+Theorem C17_chat_tools_split_dependent :
+  exists P o1 o2, text_of o1 = text_of o2 /\ ending o1 = ending o2 /\
+    stream_result (chat_stream P (mkCc true true) o1) <> stream_result (chat_stream P (mkCc true true) o2).
+Proof.
+  exists P0, (mkOut [[60;97;62;60;98]%N; [99;62]%N] (FDone [] RStop zeroc)),
+             (mkOut [[60;97;62]%N; [60;98;99;62]%N] (FDone [] RStop zeroc)).
+  split; [reflexivity|]. split; [reflexivity|]. vm_compute. discriminate.
+Qed.
+Print Assumptions C17_chat_tools_split_dependent.
+
+(** for every parser that never succeeds with an empty list and is additive over concatenation once it has
+    succeeded on the left part (P a = Some ca -> P (a ++ b) = Some (ca ++ cb) when P b = Some cb, Some ca when
+    P b = None), every two splits of one output, every failure point, final response without content (the
+    llm.Completion contract): the streamed records carry the same text, tool calls (name, arguments), done
+    reason and counts as the non-streamed response.  The hypothesis is evaluated on the real parseToolCalls by
+    the check on every split where the modes disagree. *)
+Theorem C17_chat_equiv_tools_partial : forall P, parser_nonempty P -> parser_additive P -> forall o1 o2,
+  text_of o1 = text_of o2 -> ending o1 = ending o2 ->
+  ending o1 <> FSilent -> fin_content (ending o1) = [] ->
+  stream_result (chat_stream P (mkCc true true) o1) = http_result (chat_nonstream P true o2).
+Proof. exact chat_equiv_tools_partial. Qed.
+Print Assumptions C17_chat_equiv_tools_partial.
+
+(** the hypotheses are satisfiable by a parser that finds calls (every '!' is a call), and the theorem then
+    speaks about streams that do carry tool calls: "a!b" "!" streams two calls *)
+Example C17_chat_equiv_tools_nonvacuous :
+  parser_nonempty Pm /\ parser_additive Pm /\
+  stream_result (chat_stream Pm (mkCc true true) (mkOut [[97;33;98]%N; [33]%N] (FDone [] RLength (mkC 3 7 5 9)))) =
+  ROk [] [([33%N], []); ([33%N], [])] s_length (mkC 3 7 5 9) None.
+Proof. split; [exact Pm_nonempty|]. split; [exact Pm_additive|]. vm_compute. reflexivity. Qed.
+
+(** ** the OpenAI-compatible endpoints show the native result *)
+
+(** /v1/completions, stream (with or without usage) and non-stream, for every split: the SSE events
+    concatenate to, and the completion object is, the OpenAI rendering of the one native result *)
+Theorem C17_openai_same_content_generate : forall cfg o,
+  (forall u, sse_result (v1comp_stream u (gen_stream cfg o)) = openai_of u (stream_result (gen_stream cfg o))) /\
+  (ending o <> FSilent ->
+   v1_result (v1comp_nonstream (gen_nonstream cfg o)) = openai_of true (http_result (gen_nonstream cfg o))).
+Proof.
+  intros cfg o. split.
+  - intros u. rewrite openai_gen_stream, gen_stream_result. reflexivity.
+  - intros Hs. rewrite openai_gen_nonstream, gen_nonstream_result by exact Hs. reflexivity.
+Qed.
+Print Assumptions C17_openai_same_content_generate.
+
+(** /v1/chat/completions: without tools for every parser; with tools when the parser does not succeed on the
+    empty string and the final runner response carries no content (so that no call arrives in the final record);
+    non-stream: unless tool calls meet the empty done reason of a closed connection *)
+Theorem C17_openai_same_content_chat : forall P cfg o,
+  (negb (c_stream cfg) || negb (c_tools cfg) = true \/ (P [] = None /\ fin_content (ending o) = [])) ->
+  (forall u, sse_result (v1chat_stream u false (chat_stream P cfg o)) = openai_of u (stream_result (chat_stream P cfg o))) /\
+  (forall tools,
+     match ending o with
+     | FDone _ r _ => tools = false \/ r <> RClosed
+     | FErr _ => True
+     | FSilent => False
+     end ->
+     v1_result (v1chat_nonstream (chat_nonstream P tools o)) = openai_of true (http_result (chat_nonstream P tools o))).
+Proof.
+  intros P cfg o H. split.
+  - intros u. apply openai_chat_stream. exact H.
+  - intros tools Ht. apply openai_chat_nonstream. exact Ht.
+Qed.
+Print Assumptions C17_openai_same_content_chat.
+
+(** all four views of one generate output and of one chat output without tools, for any two splits *)
+Theorem C17_openai_same_content : forall o1 o2,
+  text_of o1 = text_of o2 -> ending o1 = ending o2 -> ending o1 <> FSilent ->
+  (forall cfg u,
+     sse_result (v1comp_stream u (gen_stream cfg o1)) = openai_of u (http_result (gen_nonstream cfg o2)) /\
+     v1_result (v1comp_nonstream (gen_nonstream cfg o1)) = openai_of true (stream_result (gen_stream cfg o2))) /\
+  (forall P s u,
+     sse_result (v1chat_stream u false (chat_stream P (mkCc s false) o1)) = openai_of u (http_result (chat_nonstream P false o2)) /\
+     v1_result (v1chat_nonstream (chat_nonstream P false o1)) = openai_of true (stream_result (chat_stream P (mkCc s false) o2))).
+Proof.
+  intros o1 o2 Ht He Hs. split.
+  - intros cfg u. split.
+    + rewrite openai_gen_stream, gen_nonstream_result, Ht, He. reflexivity.
+    + rewrite openai_gen_nonstream, gen_stream_result, Ht, He by exact Hs. reflexivity.
+  - intros P s u. split.
+    + rewrite openai_chat_stream by (left; cbn; apply orb_true_r).
+      rewrite (chat_equiv_no_tools P s o1 o2 Ht He). reflexivity.
+    + rewrite openai_chat_nonstream.
+      * rewrite <- (chat_equiv_no_tools P s o2 o1 (eq_sym Ht) (eq_sym He)). reflexivity.
+      * destruct (ending o1); auto.
+Qed.
+Print Assumptions C17_openai_same_content.
+
+Example C17_openai_same_content_nonvacuous :
+  sse_result (v1chat_stream true false (chat_stream P0 (mkCc true false) (mkOut [[72]%N; [105]%N] (FDone [] RStop (mkC 3 7 5 9))))) =
+  OOk [72;105]%N [] (Some s_stop) (Some (3, 5)%Z).
+Proof. vm_compute. reflexivity. Qed.
